@@ -135,3 +135,88 @@ def config(draw, kinds=gen.CHEAP, max_d=4, max_len=6, max_bs=4, losses=("minkows
         cfg["rl"] = {"alpha": draw(st.sampled_from([-1, 0.1, 0.5])), "eps": draw(st.sampled_from([0.0, 0.1, 0.5, 1.0])),
                      "agent_seed": draw(st.integers(0, 100)), "sched_seed": draw(st.integers(0, 100))}
     return cfg
+
+
+# ---- canonical snapshots (C04 / C05 / C06) ---------------------------------------------------------------------------
+def canon(o, depth=0):
+    """Canonical, comparable form of a calibrator component.
+
+    ndarray -> (dtype, shape, bytes with NaNs normalised); Generator -> bit-generator state; black_it / harness objects ->
+    class name + canonical __dict__; fitted third-party estimators -> class name only (they are refit from the history
+    before every use); callables -> qualified name.
+    """
+    import types
+
+    if depth > 12:
+        return "<deep>"
+    if o is None or isinstance(o, (bool, int, str, bytes)):
+        return o
+    if isinstance(o, float):
+        return ("nan",) if o != o else ("f", o.hex())
+    if isinstance(o, np.generic):
+        return canon(o.item(), depth + 1) if o.dtype.kind != "f" else canon(float(o), depth + 1) + (str(o.dtype),)
+    if isinstance(o, np.ndarray):
+        a = o
+        if a.dtype.kind == "f":
+            a = np.where(np.isnan(a), np.float64("nan"), a) if a.size else a
+        if a.dtype.kind == "O":
+            return ("objarr", a.shape, tuple(canon(x, depth + 1) for x in a.ravel().tolist()))
+        return ("arr", str(o.dtype), o.shape, np.ascontiguousarray(a).tobytes())
+    if isinstance(o, np.random.Generator):
+        return ("rng", canon(o.bit_generator.state, depth + 1))
+    if isinstance(o, dict):
+        return ("dict", tuple(sorted((str(k), canon(v, depth + 1)) for k, v in o.items())))
+    if isinstance(o, (list, tuple)):
+        return (type(o).__name__, tuple(canon(v, depth + 1) for v in o))
+    if isinstance(o, (types.FunctionType, types.BuiltinFunctionType, types.MethodType, type)):
+        return ("callable", getattr(o, "__module__", "?"), getattr(o, "__qualname__", repr(o)))
+    mod = type(o).__module__ or ""
+    if mod.startswith(("black_it", "harness")):
+        d = getattr(o, "__dict__", {})
+        return ("obj", type(o).__qualname__, tuple(sorted((k, canon(v, depth + 1)) for k, v in d.items()
+                                                          if k not in ("_agent_thread",) and not k.endswith("_queue"))))
+    if mod.startswith("threading") or mod.startswith("queue") or mod.startswith("_thread"):
+        return ("sync", type(o).__name__)
+    return ("third-party", mod.split(".")[0], type(o).__name__)
+
+
+def snapshot(cal):
+    """Observable state of a calibrator as a flat dict path -> canonical value."""
+    s = {}
+    for k in ("ensemble_size", "N", "D", "verbose", "convergence_precision", "saving_folder", "random_state", "n_jobs",
+              "current_batch_index", "n_sampled_params"):
+        s[k] = canon(getattr(cal, k))
+    s["samplers_id_table"] = canon(dict(cal.samplers_id_table))
+    s["real_data"] = canon(np.asarray(cal.real_data))
+    for k in HIST:
+        s[k] = canon(np.asarray(getattr(cal, k)))
+    s["random_generator"] = canon(cal.random_generator)
+    s["space.bounds"] = canon(np.asarray(cal.param_grid.parameters_bounds, dtype=float))
+    s["space.precision"] = canon(np.asarray(cal.param_grid.parameters_precision, dtype=float))
+    s["space.grid"] = canon([np.asarray(g) for g in cal.param_grid.param_grid])
+    s["space.size"] = cal.param_grid.space_size
+    s["scheduler.class"] = type(cal.scheduler).__qualname__
+    for k, v in getattr(cal.scheduler, "__dict__", {}).items():
+        if k in ("_samplers", "_original_samplers", "_agent_thread") or k.endswith("_queue"):
+            continue
+        s[f"scheduler.{k}"] = canon(v)
+    for i, smp in enumerate(cal.scheduler.samplers):
+        s[f"sampler[{i}].class"] = type(smp).__qualname__
+        for k, v in smp.__dict__.items():
+            s[f"sampler[{i}].{k}"] = canon(v)
+    s["loss"] = canon(cal.loss_function)
+    s["model"] = getattr(cal.model, "__name__", "?")
+    return s
+
+
+def snap_diff(a, b):
+    """Paths at which two snapshots differ."""
+    keys = sorted(set(a) | set(b))
+    return [k for k in keys if a.get(k, "<absent>") != b.get(k, "<absent>")]
+
+
+def describe(v, limit=160):
+    if isinstance(v, tuple) and v and v[0] == "arr":
+        arr = np.frombuffer(v[3], dtype=v[1]).reshape(v[2])
+        return f"array{v[2]} {v[1]} {arr.ravel()[:6].tolist()}"
+    return repr(v)[:limit]
